@@ -339,6 +339,49 @@ func ruleA25(r *Run, p *Prog) {
 			r.Ob("A25", FnName(f)+"/store-skipFrame", p.Pos(stx.Pos()), okS, true, "Event.skipFrame: "+why)
 		})
 	}
+	// hooks run once per registered hook on the same event: a hook that changes Event.skipFrame
+	// (directly or through CallerSkipFrame) shifts the frame arithmetic of every later hook
+	hookT := p.NamedType("", "Hook")
+	if hookT != nil {
+		writes := map[*ssa.Function]bool{}
+		for _, f := range p.ModFns {
+			eachInstr(f, func(b *ssa.BasicBlock, i int, in ssa.Instruction) {
+				if stx, ok := in.(*ssa.Store); ok {
+					if fa, ok := stx.Addr.(*ssa.FieldAddr); ok && fieldVar(fa) == a.skipFr {
+						if n, isC := constInt(stx.Val); !isC || n != 0 {
+							writes[f] = true
+						}
+					}
+				}
+			})
+		}
+		iface, _ := hookT.Underlying().(*types.Interface)
+		for _, f := range p.ModFns {
+			if pkgRel(f) != "" || f.Name() != "Run" || f.Signature.Recv() == nil || iface == nil || !types.Implements(f.Signature.Recv().Type(), iface) {
+				continue
+			}
+			// static callees closure
+			seen := map[*ssa.Function]bool{f: true}
+			st := []*ssa.Function{f}
+			bad := ""
+			for len(st) > 0 {
+				g := st[len(st)-1]
+				st = st[:len(st)-1]
+				if writes[g] {
+					bad = FnName(g)
+				}
+				eachInstr(g, func(b *ssa.BasicBlock, i int, in ssa.Instruction) {
+					if cc := callCommon(in); cc != nil {
+						if sc := staticCallee(cc); sc != nil && InModule(sc) && !seen[sc] && sc.Blocks != nil {
+							seen[sc] = true
+							st = append(st, sc)
+						}
+					}
+				})
+			}
+			r.Ob("A25", FnName(f)+"/hook-leaves-skipFrame", p.Pos(f.Pos()), bad == "", true, tern(bad == "", "the hook does not modify Event.skipFrame", "the hook changes Event.skipFrame (through "+bad+"): the event is shared by all hooks of the logger, so every later caller hook (and Event.Caller in a later hook) is off by that amount"))
+		}
+	}
 	// enumerate chains backwards through the VTA call graph
 	cg := p.CG()
 	var chains [][]a25frame
